@@ -72,7 +72,9 @@ def run(c):
         reqs.append(rtlib.gen_subtask_script(c.rng, mode, 3, maxbody, stats))
     if not impl:
         return
-    runs = rtlib.run_scripts(impl, reqs)
+    flaky = collections.Counter()
+    runs = rtlib.run_scripts(impl, reqs, stats=flaky)
+    c.cov["batch_runner_confirmations"] = dict(flaky)
     itrace = [x.cmp() for x in runs]
     if not model:
         for r, x in zip(reqs, runs):
